@@ -101,6 +101,11 @@ func ConcFamilies(seed int64, scale string) []ConcCase {
 			fund("bob", "USD", 1, 3), fund("orders:1", "EUR/2", 2, 3))
 		add("ids/shared-world-row-"+tag, hm, []Op{fund("alice", "USD", bal, 1)},
 			fund("bob", "USD", 1, 3), fund("orders:1", "USD", 2, 3))
+		// an atomic bulk (its transaction is opened by the caller) racing with a writer on other rows
+		atomicFund := fund("carol", "EUR/2", 2, 3)
+		atomicFund.API = "bulk-atomic"
+		add("ids/atomic-bulk-vs-meta-"+tag, hm, []Op{fund("alice", "USD", bal, 1)},
+			atomicFund, Op{K: "acmeta", L: "l1", Addr: "alice", Meta: map[string]string{"k": "v"}})
 		add("ids/meta-vs-create-"+tag, hm, []Op{fund("alice", "USD", bal, 1)},
 			Op{K: "acmeta", L: "l1", Addr: "alice", Meta: map[string]string{"k": "v"}}, fund("bob", "EUR/2", 1, 3),
 			Op{K: "txmeta", L: "l1", ID: 1, Meta: map[string]string{"role": "w"}})
